@@ -208,8 +208,17 @@ def run(ck, facts):
             kind = "operator=" if "operator=" in c else "copy-ctor"
             missing = [mb for mb in members if ("o." + mb) not in c]
             ck.expect(not missing, "R5", "cpp/runtime/span-%s-copies-all-members" % kind, "", "span %s does not copy %s from its argument: a reassigned span keeps a stale %s" % (kind, missing, missing), "tool/templates/cpp/runtime.hpp.jinja")
-    run_cb = re.search(r"static\s+Ret\s+c_run_callback\s*\(\s*const\s+void\s*\*\s*cb[^)]*\)\s*\{(.*?)\}", rth, re.S)
+    run_cb = re.search(r"static\s+Ret\s+c_run_callback\s*\(\s*const\s+void\s*\*\s*cb[^)]*\)\s*\{(.*?)\n    \}", rth, re.S)
     ck.expect(bool(run_cb) and "reinterpret_cast<const function_t *>(cb)" in run_cb.group(1), "R5", "cpp/runtime/c_run_callback", "", "c_run_callback no longer invokes the std::function stored behind the data pointer", "tool/templates/cpp/runtime.hpp.jinja")
+    if run_cb:
+        # the stored callable itself is invoked: it is called through the pointer, or bound to a reference / pointer first -- never copied into a local object
+        by_value = re.findall(r"(?:^\s*|[;{]\s*)((?:const\s+)?(?:auto|function_t|std::function<[^;=]*>)\s+(\w+)\s*(?:=|\{|\()\s*\*\s*reinterpret_cast<[^>]*>\s*\(\s*cb\s*\))", run_cb.group(1))
+        ck.expect(not by_value, "R5", "cpp/runtime/c_run_callback/no-copy", "called through the stored object",
+                  "c_run_callback copies the stored std::function (`%s`) and calls the copy: state captured by value (a mutable lambda, a functor with counters) restarts from its initial value on every call from Rust"
+                  % (by_value[0][0].strip()[:70] if by_value else ""), "tool/templates/cpp/runtime.hpp.jinja")
+    # a struct's methods are generated after its field phase (otherwise headers of mutually referring structs stop compiling and the API cannot be called at all; shares C09.R7)
+    import c09
+    c09.cpp_struct_field_window(ck, "R3", facts)
 
 
     # ---------------- R6 runtime.hpp result arms, comparison operators, span default, enum wrapper
